@@ -94,7 +94,7 @@ def run(ctx, tier):
             r2.violations.append(Violation('C10', 'C10.arc', b.path, 'difference', pr, loc=b.loc(0), ordinal=o))
     if m < 1:
         r2.violations.append(Violation('C10', 'C10.arc', 'oxmpl', 'floor', 'no SO(2) interpolation found (floor 1)'))
-    return [r, r2, _repr(ctx)] + _algebra(ctx)
+    return [r, r2, _repr(ctx)] + _algebra_safe(ctx)
 
 
 def _repr(ctx):
@@ -170,6 +170,7 @@ def _algebra(ctx):
     re_ = RuleResult('C10.ends', 'interpolate(a, b, 0) is a and interpolate(a, b, 1) is b (exactly / modulo 2 pi / as the same rotation)')
     ra = RuleResult('C10.affine', 'vector and angle interpolation is affine in t')
     rw = RuleResult('C10.swap', 'interpolate(b, a, 1 - t) denotes the same configuration as interpolate(a, b, t)')
+    ru = RuleResult('C10.unit', 'interpolated quaternions have unit norm for unit end points')
     n = 0
     M = 2 * math.pi
     for b in sorted(ctx.lib_bodies(), key=lambda x: x.path):
@@ -266,6 +267,9 @@ def _algebra(ctx):
             return None
         swapped = {k: subst(swap_params(v, pa, pb), flip) for k, v in outs_t.items()}
         same(outs_t, lambda path: swapped[path], 'interpolate(b, a, 1 - t) against interpolate(a, b, t)', 'C10.swap', rw, 0)
+        # ---- unit norm of an interpolated quaternion (unit end points)
+        if kind == 'quat' and len(outs_t) == 4:
+            _unit(ctx, b, outs_t, tl, ru)
         # ---- affine in t
         if kind in ('angle', 'exact'):
             for o, (path, v) in enumerate(sorted(outs_t.items(), key=repr)):
@@ -289,7 +293,7 @@ def _algebra(ctx):
                                                loc=b.loc(0), ordinal=o))
     if n < 6:
         re_.violations.append(Violation('C10', 'C10.ends', 'oxmpl', 'floor', 'only %d interpolate functions found (floor 6)' % n))
-    return [re_, ra, rw]
+    return [re_, ra, rw, ru]
 
 
 def _second_difference(w, tl):
@@ -309,3 +313,76 @@ def _second_difference(w, tl):
         if abs(d2) > 1e-7 * max(1.0, abs(vals[0]), abs(vals[1])):
             hits += 1
     return hits >= 3
+
+
+def _algebra_safe(ctx):
+    """the normal-form rules never alarm on what they cannot analyse: an internal error is an undecided instance"""
+    try:
+        return _algebra(ctx)
+    except Exception as e:      # noqa
+        r = RuleResult('C10.algebra', 'normal-form clauses (sym / zero / period resp. ends / affine / swap)')
+        r.inst('normal-form analysis: undecided - internal error %s: %s' % (type(e).__name__, str(e)[:200]), ok=True, nontrivial=False)
+        return [r]
+
+
+def _unit(ctx, b, outs, tl, ru):
+    """sum of the squares of the four stored components is 1 when both end points are unit quaternions: proved where the
+    normal form reduces to 1 (a value divided by its own norm), undecided where it does not but evaluates to 1 at every
+    evaluation point (SLERP needs a trigonometric identity the normal forms do not have), a violation where it evaluates
+    to something else"""
+    from ..symval import Poly
+    from ..symrules import cases, deep_unit, cancel_recips, Env, ev
+    ks = sorted(outs, key=repr)
+    cs = cases([outs[k] for k in ks])
+    if cs is None:
+        ru.inst('%s: undecided - too many gating conditions' % b.path, ok=True, nontrivial=False)
+        return
+    proved = 0
+    for asg, ps in cs:
+        if any(p is None for p in ps):
+            continue
+        u = Poly()
+        for p in ps:
+            sq = p * p
+            if sq is None:
+                u = None
+                break
+            u = u + sq
+        if u is None:
+            continue
+        u = cancel_recips(deep_unit(u))
+        if u is not None and u.is_const() and abs(u.cval() - 1.0) < 1e-12:
+            proved += 1
+    # evaluation of the whole (gated) form at unit end points and t in [0, 1]
+    total = Poly()
+    for k in ks:
+        sq = outs[k] * outs[k]
+        total = total + sq if sq is not None and total is not None else None
+    bad = None
+    n_ok = 0
+    if total is not None:
+        for seed in range(60):
+            env = Env(seed, special=seed % 3 == 2)
+            env.unit = True
+            env.near = seed % 4 == 1          # nearly parallel end points (the branch interpolating linearly)
+            env.vals[(tl, None)] = [0.5, 0.25, 0.9, 0.0, 1.0][seed % 5] if seed % 2 else env.rnd.uniform(0.2, 0.8)
+            try:
+                v = ev(total, env)
+            except (ValueError, ZeroDivisionError, OverflowError, TypeError):
+                continue
+            if v != v:
+                continue
+            n_ok += 1
+            if abs(v - 1.0) > 1e-6:
+                bad = v
+                break
+    if bad is not None:
+        ru.inst('%s: squared norm evaluates to %.9g' % (b.path, bad), ok=False, site=b.loc(0))
+        ru.violations.append(Violation('C10', 'C10.unit', b.path, 'unit-norm',
+                                       'the four stored components do not form a unit quaternion for unit end points: the squared norm of the '
+                                       'normal form evaluates to %.9g at an admissible point (a branch stores an un-normalised combination)' % bad, loc=b.loc(0)))
+    elif proved == len(cs):
+        ru.inst('%s: squared norm reduces to 1 in all %d feasible cases' % (b.path, len(cs)), ok=True, site=b.loc(0))
+    else:
+        ru.inst('%s: undecided - squared norm reduces to 1 in %d of %d feasible cases (the others evaluate to 1 at all %d admissible points tried)' % (
+            b.path, proved, len(cs), n_ok), ok=True, nontrivial=False)
